@@ -7,10 +7,16 @@ TECH_KW = TECH_K + '; multiplication kernels exported by CBMC as SMT-LIB and dec
 NOTE = ('Trusted: rustc/Kani MIR->GOTO translation, CBMC, CaDiCaL, cvc5; the harness-crate oracles (independent reference arithmetic, no ark_* code). '
         'Bounded: instantiations, sizes and unwind bounds are those listed in the evidence samples; other instantiations of the same generic code are outside the claim. ')
 CLAIMS = {
+ 'C01': dict(tech=TECH_KW, ref='DESIGN.md §4 C01',
+   text='Real generic Fp<MontBackend> code instantiated in the harness crate, each modulus BOTH through #[derive(MontConfig)] (macro-generated arithmetic) and as a hand-written impl MontConfig (trait-default arithmetic). Tiny moduli (13, 251, 65521/65537; thorough: 3,7,17,31,73,97,127,257): the solver decides over ALL operands add/sub/neg/double/mul/square/inverse/sum_of_products/from_bigint/into_bigint/From<ints>/bytes_mod_order against integer arithmetic mod p on independently decoded values, results canonical. Full-width moduli (1,2,4,6 limbs quick; 12,13 thorough; with/without spare bit, no-carry eligible or not, Mersenne, top limb 2^63-1): add/sub/neg/double over ALL operands vs limb-wise reference; Montgomery mul (and into_bigint) over ALL operands at 1 and 2 limbs against textbook SOS/CIOS references (cvc5); at 4/6 limbs only narrow operand windows.',
+   note=NOTE + 'Multiplication at >= 4 limbs is NOT decided over the operand space (only 8-free-bit windows). pow and batch inversion only in the thorough tier on F_13 (attempts). Decimal FromStr/Display (num-bigint heap radix conversion) not covered. CBMC SMT2 export is patched for a known overflow_result layout bug (DESIGN.md §2.2).'),
  'C15': dict(tech=TECH_KW, ref='DESIGN.md §4 C15',
    text='For BigInt<N> (N=1,2,4,6,7 quick; 12,13 thorough) the solver decides over ALL operands: add_with_carry/sub_with_borrow (limbs and exact carry/borrow), mul2/div2, muln/divn/<</>> for every shift amount 0..64N+64 at bit level, Ord/Eq/predicates, get_bit/num_bits/bit operators, two_adic_*, From<ints>, from_bits/to_bits/to_bytes (N=1; N=2 thorough); mul/mul_low/mul_high over all operands at N=1,2 (cvc5) and on narrow windows at N=4,6; NAF/wNAF/relaxed-NAF recodings reconstruct the value and obey digit constraints for all values < 2^10..2^12, and (thorough) on the wrap-around region next to 2^64 and across the limb boundary.',
    note=NOTE + 'Decimal/hex parsing and printing (num-bigint radix conversion on the heap) are NOT covered. Recodings of generic 64-bit values are outside the bound.'),
 }
+CLAIMS['C18'] = dict(tech=TECH_K, ref='DESIGN.md §4 C18',
+   text='For ALL values of bool, u8..u64, i8..i64, usize/isize, Option, tuples (arity 0..5), arrays, Vec<u16> (len 0,1,3), VecDeque (wrapped ring buffer), LinkedList, Rc/Arc/Cow/slices, BigInt<2>, mode-pinning wrappers around a type whose encodings differ, and derived structs (named, tuple, nested-tuple, generic): round trip in a symbolically chosen (compress, validate) mode, bytes written == serialized_size, truncated encodings are Err. Malformed input: EVERY byte string of length 0..=10/12 offered to the scalar, Option, tuple, array, Vec<u8>, Vec<u32>, VecDeque<u16>, LinkedList<u8> deserializers: Ok or Err, no panic, no capacity overflow / allocation driven by the untrusted length prefix; invalid bool bytes and invalid inner values (checked wrappers, derived Valid) are rejected.',
+   note=NOTE + 'String (UTF-8 validation) and BTreeMap/BTreeSet harnesses exceed the memory cap under CBMC and are thorough-tier attempts only (not counted); BigUint thorough attempt. Element types are small integers.')
 NA = {
  'C06': 'Pairings: >= 10^4 full-width symbolic 64x64 multiplications per pairing and no tractable instantiation of the shipped models; one 4-limb Montgomery multiplication is already beyond both solver back ends (DESIGN.md §4 C06).',
 }
